@@ -614,10 +614,22 @@ class CleanerCheck(Check):
     def __init__(self, prop):
         self.prop = prop
 
+    e2e_share = 0.03
+
     def generate(self, st, tier):
+        if st.knob.random() < self.e2e_share:
+            # end-to-end: the same kind of content collected on a simulated host with this cleaner in the broker (W2)
+            from worlds import w2_collect
+            return w2_collect.gen_e2e(st, tier, self.flavour)
         return gen_case(st, tier, self.flavour)
 
+    def run_e2e(self, case):
+        from worlds import w2_collect
+        return w2_collect.run_e2e(case, self.flavour)
+
     def shrink(self, case):
+        if case.get("w") == "w2e":
+            return shrink_e2e(case)
         return shrink(case)
 
     def base_result(self, case, r, viols, stats):
@@ -653,6 +665,8 @@ class C08(CleanerCheck):
             "tokens; distinct = digest of outputs + mappings")
 
     def execute(self, case):
+        if case.get("w") == "w2e":
+            return self.run_e2e(case)
         stats = {"faults_fired": {}, "probes": {}}
         r = run_history(case)
         viols = oracle_c08(case, r, stats)
@@ -661,6 +675,7 @@ class C08(CleanerCheck):
 
 class C09(CleanerCheck):
     flavour = "C09"
+    e2e_share = 0.0
     title = "Obfuscation is a consistent mapping, injective for IPs and hosts, and reported"
     quick = dict(runs=300000, wall=100)
     thorough = dict(runs=4000000, wall=1500)
@@ -696,6 +711,9 @@ class C10(CleanerCheck):
             "each output line carries exactly one; an all-blank result is []")
 
     def generate(self, st, tier):
+        if st.knob.random() < self.e2e_share:
+            from worlds import w2_collect
+            return w2_collect.gen_e2e(st, tier, "C10")
         case = gen_case(st, tier, "C10")
         # competition: a keyword that also occurs inside a host label / next to an address
         rp = st.prog
@@ -710,6 +728,8 @@ class C10(CleanerCheck):
         return case
 
     def execute(self, case):
+        if case.get("w") == "w2e":
+            return self.run_e2e(case)
         stats = {"faults_fired": {}, "probes": {}}
         r = run_history(case)
         viols = oracle_c10(case, r, stats)
@@ -766,6 +786,50 @@ def shrink(case):
             c = cp()
             c["cfg"][k] = False
             yield c
+
+
+def shrink_e2e(case):
+    def cp():
+        return json.loads(json.dumps(case))
+    n = len(case["specs"])
+    for k in reversed(range(n)):
+        if n > 1:
+            c = cp()
+            del c["specs"][k]
+            yield c
+    for si, spec in enumerate(case["specs"]):
+        for li in reversed(range(len(spec["lines"]))):
+            c = cp()
+            del c["specs"][si]["lines"][li]
+            yield c
+        for li, segs in enumerate(spec["lines"]):
+            for j in reversed(range(len(segs))):
+                if segs[j][0] == "d":
+                    continue
+                c = cp()
+                sg = c["specs"][si]["lines"][li]
+                del sg[j]
+                if j > 0 and sg and j - 1 < len(sg) and sg[j - 1][0] == "d":
+                    del sg[j - 1]
+                yield c
+        if spec["factory"] != "simple_file":
+            c = cp()
+            c["specs"][si]["factory"] = "simple_file"
+            yield c
+        for key, simple in (("no_obfuscate", []), ("no_redact", False)):
+            if spec[key] != simple:
+                c = cp()
+                c["specs"][si][key] = simple
+                yield c
+        if len(spec["filters"]) > 1:
+            for k in range(len(spec["filters"])):
+                c = cp()
+                del c["specs"][si]["filters"][k]
+                yield c
+    for k in range(len(case["keywords"])):
+        c = cp()
+        del c["keywords"][k]
+        yield c
 
 
 def get_check(prop):
